@@ -16,7 +16,7 @@ type TODO struct {
 }
 
 var (
-	assignRegStr   = "^\\([\\w \\._\\+\\-@]+\\)"
+	assignRegStr   = "^\\([\\w\\p{L}\\p{M}\\p{N} \\._\\+\\-@]+\\)"
 	regexpAssignee = regexp.MustCompile(assignRegStr)
 )
 
